@@ -8,16 +8,33 @@ from props.base import to_request, corpus_for  # noqa: F401
 ID = 'C12'
 LEAN_MODULES = ['PybtexModel.Props.C12']
 THEOREMS = {}   # filled below (kept next to the clause texts)
-RULE = ('every string over the 10-character alphabet {a B 1 space ~ - { } \\ :} up to the tier length, each with every '
-        'prefix count in [-1, len+2] and every (start, length) in [-(len+2), len+2]^2, through all primitives at once; '
-        'plus seeded random long strings (ASCII, the 29 white-space code points, a few non-ASCII symbols, nesting up to '
-        'and beyond the 100-level guard); non-trivial = contains a brace, backslash or separator; distinct by case JSON')
-TRUSTED = ['letters, digits and case mapping are ASCII in the model (generators draw letters from ASCII)',
-           're.split / str.partition / str.strip semantics on the three separator shapes are modelled by hand matchers']
-ASSUMPTIONS = ['strings contain no non-ASCII letters or digits']
+RULE = ('every string over the 10-character alphabet {a B 1 space ~ - { } \\ :} up to the tier length (and every string of length <= 4 over {a , space { } -} with a comma), each with every '
+        'prefix count in [-1, len+2] and every (start, length) in [-(len+2), len+2]^2, through all primitives at once -- the '
+        'utils functions AND the built-ins substring$ / text.prefix$ / purify$ / change.case$ / text.length$ / width$ / '
+        'num.names$ on a real Interpreter stack, change.case$ with a family of mode strings (T, title, x, empty ...); '
+        'every string of length <= 7 over {a n d A space tab { }} containing "and" through the name-list splitter '
+        '(utils.split_name_list, num.names$); seeded random long strings (ASCII incl. a n d A N D and the comma, the 29 '
+        'white-space code points, symbols, nesting up to and beyond the 100-level guard, counts and windows up to 2^64 and 10^20); a Unicode family (cased and '
+        'caseless non-ASCII letters, digits, and the letters whose case mapping changes the length); '
+        'non-trivial = contains a brace, backslash or separator; distinct by case JSON')
+TRUSTED = ['character classes and single-character case mapping are the running interpreter\'s tables (regenerated on every run: '
+           'Gen/Unicode.lean, Gen/UnicodeCase.lean, Gen/UnicodeC12.lean); purify_special_char_re is ASCII as in the code',
+           're.split / str.partition / str.strip semantics on the four separator shapes are modelled by hand matchers',
+           'the oracle\'s reference splitter uses Python\'s re on the brace-level-0 stretches of the string']
+ASSUMPTIONS = ['case change is modelled character by character: strings containing a letter whose upper- or lower-case form is not '
+               'one character (102 + 1 code points: ß ŉ ǰ ΐ ﬁ ... İ) or U+03A3 (context-dependent final sigma) are outside the '
+               'model (Lean: caseDomain); on them the property clauses are evaluated on the implementation alone '
+               '(known finding C12-case-length-changing-letter)']
 
 ALPHABET = ['a', 'B', '1', ' ', '~', '-', '{', '}', '\\', ':']
+COMMA_ALPHABET = ['a', ',', ' ', '{', '}', '-']
+AND_ALPHABET = ['a', 'n', 'd', 'A', ' ', '\t', '{', '}']
 SEPS = {'space': None, 'comma': ',', 'hyphen': '-', 'and': ' [Aa][Nn][Dd] '}
+# the separators as the PROPERTY means them (reference of the oracle; independent of what the call sites pass)
+SEP_PATTERNS = {'space': r'(?:\\ |\s|(?<!\\)~)+', 'comma': ',', 'hyphen': '-', 'and': ' [Aa][Nn][Dd] '}
+MODES = ['T', 'title', 'x', '', 'U']
+MODE_POOL = ['l', 'u', 't', 'L', 'U', 'T', 'title', 'Lower', 'UPPER', 'x', '', ' t', 'tl', 'lx', '1', 'İ', 'Ł', 'Ｔ', '{']
+DELIMS = ['.']
 
 
 def _err(e):
@@ -31,24 +48,83 @@ def _call(f, *a):
         return _err(e)
 
 
+_INTERP = []
+
+
+def _interp():
+    """A real Interpreter (its stack, push/pop and its own table of built-ins are what the wrappers use)."""
+    if not _INTERP:
+        from pybtex.bibtex.interpreter import Interpreter
+        _INTERP.append(Interpreter(None, None))
+    return _INTERP[0]
+
+
+def _builtin(name, *args):
+    """Run one built-in on a stack holding `args` (pushed left to right) and return what it leaves."""
+    i = _interp()
+    del i.stack[:]
+    for a in args:
+        i.push(a)
+    i.vars[name].execute(i)
+    r = i.pop()
+    if i.stack:
+        raise AssertionError('built-in %s left %d extra values' % (name, len(i.stack)))
+    return r
+
+
+def in_case_domain(s):
+    return all(len(c.upper()) == 1 and len(c.lower()) == 1 and c != 'Σ' for c in s)
+
+
 def impl(case):
     from pybtex.bibtex import utils
     s = case['s']
     out = {}
+    if case['op'] == 'texsplit':
+        out['and'] = _call(utils.split_name_list, s)
+        out['raw_and'] = _call(utils.split_tex_string, s, SEPS['and'], False)
+        out['space'] = _call(utils.split_tex_string, s)
+        out['raw_space'] = _call(utils.split_tex_string, s, utils.BIBTEX_SPACE_RE.pattern, False)
+        out['num.names$'] = _call(_builtin, 'num.names$', s)
+        return out
     out['scan'] = _call(lambda: [[t, l] for t, l in utils.scan_bibtex_string(s)])
     out['len'] = _call(utils.bibtex_len, s)
     out['purify'] = _call(utils.bibtex_purify, s)
     out['case'] = {m: _call(utils.change_case, s, m) for m in 'lut'}
     out['width'] = _call(utils.bibtex_width, s)
     out['split'] = {k: _call(lambda v=v: utils.split_tex_string(s, v) if v is not None else utils.split_tex_string(s)) for k, v in SEPS.items()}
+    out['split']['and'] = _call(utils.split_name_list, s)          # the real call site
     out['raw'] = {k: _call(lambda v=v: utils.split_tex_string(s, v, strip=False) if v is not None else
                           utils.split_tex_string(s, utils.BIBTEX_SPACE_RE.pattern, strip=False)) for k, v in SEPS.items()}
     out['firstletter'] = _call(utils.bibtex_first_letter, s)
     out['abbreviate'] = _call(utils.bibtex_abbreviate, s)
+    out['abbrev_d'] = [_call(utils.bibtex_abbreviate, s, d) for d in case.get('delims', [])]
     out['fcb'] = _call(lambda: list(utils._find_closing_brace(s)))
     out['prefix'] = [_call(utils.bibtex_prefix, s, n) for n in case['ns']]
     out['substring'] = [_call(utils.bibtex_substring, s, a, b) for a, b in case['subs']]
+    out['b'] = {
+        'substring$': [_call(_builtin, 'substring$', s, a, b) for a, b in case['subs']],
+        'text.prefix$': [_call(_builtin, 'text.prefix$', s, n) for n in case['ns']],
+        'purify$': _call(_builtin, 'purify$', s),
+        'text.length$': _call(_builtin, 'text.length$', s),
+        'width$': _call(_builtin, 'width$', s),
+        'num.names$': _call(_builtin, 'num.names$', s),
+        'change.case$': [_call(_builtin, 'change.case$', s, m) for m in case.get('modes', [])],
+    }
+    out['_case_domain'] = in_case_domain(s)
     return out
+
+
+def compare_view(io):
+    """What is compared with the model: case change only inside the model's domain."""
+    if not isinstance(io, dict) or '_case_domain' not in io:
+        return io
+    v = dict(io)
+    if not v.pop('_case_domain'):
+        v['case'] = 'outside-domain'
+        v['b'] = dict(v['b'])
+        v['b']['change.case$'] = 'outside-domain'
+    return v
 
 
 def model_out(case, reply):
@@ -71,29 +147,64 @@ def _balanced(s):
     return d == 0
 
 
-def _level0_sep_removed(s, sepname):
-    """Reference for 'drops only separators' on balanced strings: delete every brace-level-0 match of the separator."""
-    pat = {'space': r'(?:\\ |\s|(?<!\\)~)+', 'comma': ',', 'hyphen': '-', 'and': ' [Aa][Nn][Dd] '}[sepname]
-    out = []
-    seg = []
-    d = 0
-    for c in s:
-        if d == 0 and c != '{':
-            seg.append(c)
+def _ref_split(s, sepname):
+    """Reference for the splitting clauses: cut `s` at every match of the separator that lies at brace level 0, where the
+    level is the running brace depth, an unmatched '}' is an ordinary character and a group that is never closed extends
+    to the end of the string.  Returns the unstripped parts ([] for the empty string)."""
+    pat = SEP_PATTERNS[sepname]
+    if s == '':
+        return []
+    parts = []
+    cur = ''
+    i = 0
+    n = len(s)
+    while i < n:
+        if s[i] == '{':
+            d = 0
+            j = i
+            while j < n:
+                if s[j] == '{':
+                    d += 1
+                elif s[j] == '}':
+                    d -= 1
+                    if d == 0:
+                        j += 1
+                        break
+                j += 1
+            cur += s[i:j]
+            i = j
+        else:
+            j = s.find('{', i)
+            if j < 0:
+                j = n
+            pieces = re.split(pat, s[i:j])
+            cur += pieces[0]
+            for p in pieces[1:]:
+                parts.append(cur)
+                cur = p
+            i = j
+    parts.append(cur)
+    return parts
+
+
+def _ref_stripped(s, sepname):
+    parts = [p.strip() for p in _ref_split(s, sepname)]
+    if sepname == 'space':
+        parts = [p for p in parts if p]
+    return parts
+
+
+def _ref_first_letter(toks):
+    """The first letter or special character in scan order ('' if there is none).  A special character is a brace-level-1
+    token starting with a backslash that has something after the backslash."""
+    for t, l in toks:
+        if t in ('{', '}'):
             continue
-        if d == 0:
-            out.append(re.sub(pat, '', ''.join(seg)))
-            seg = []
-        if c == '{':
-            d += 1
-        elif c == '}':
-            d -= 1
-        out.append(c)
-    out.append(re.sub(pat, '', ''.join(seg)))
-    return ''.join(out)
-
-
-UNCLOSED_SPECIAL = re.compile(r'')
+        if t.startswith('\\') and t != '\\':
+            return '{' + t + '}'
+        if t.isalpha():
+            return t
+    return ''
 
 
 def _ends_in_unclosed_special(s):
@@ -123,6 +234,16 @@ def _ends_in_unclosed_special(s):
     return False
 
 
+def _length_changing(s):
+    """the letters of s whose upper- or lower-case form is not one character"""
+    return [c for c in s if len(c.upper()) != 1 or len(c.lower()) != 1]
+
+
+def _fold(x):
+    """'up to case': Unicode case folding after upper-casing (str.lower on ASCII); ı/I, ſ/S, ß/SS/ẞ, ς/σ/Σ are identified"""
+    return x.upper().casefold()
+
+
 CLAUSES = {
     'scan_lossless': 'scanning is lossless on balanced input (tokens concatenate to the string)',
     'scan_levels': 'levels are the running brace depth, never negative, 0 at the end of balanced input',
@@ -136,10 +257,75 @@ CLAUSES = {
     'case_letters': 'case change preserves letters up to case',
     'case_idem': 'case change is idempotent',
     'case_braces': 'inside braces case change alters nothing except the non-command words of a special character',
+    'case_mode': 'the case-change laws hold for every mode letter (l, u, t in either case, first character of the mode string)',
     'split_braces': 'top-level splitting never splits inside braces',
-    'split_drops_seps': 'top-level splitting drops only separators',
+    'split_drops_seps': 'top-level splitting drops only separators (and cuts at every brace-level-0 separator)',
+    'through_builtins': 'the same functions observed through substring$ / text.prefix$ / purify$ / change.case$ / text.length$ / num.names$',
+    'first_letter': '[anchored mechanism, not in the statement] the first letter is the first letter or special character in scan order',
+    'abbreviate': '[anchored mechanism, not in the statement] abbreviation joins the first letters of the top-level hyphen pieces that have one',
     'no_internal': 'no internal (non-pybtex) exception',
 }
+
+
+def _walk_errors(x, path, bad, s):
+    if _is_err(x):
+        if x['error'].startswith('INTERNAL'):
+            bad('no_internal', '%s raised %s on %r' % (path, x['error'], s))
+    elif isinstance(x, dict):
+        for k, v in x.items():
+            _walk_errors(v, '%s.%s' % (path, k) if path else str(k), bad, s)
+    elif isinstance(x, list):
+        for v in x:
+            if isinstance(v, (dict, list)):
+                _walk_errors(v, path, bad, s)
+
+
+def _check_split(bad, s, name, sepname, got_raw, got_stripped):
+    """the two splitting clauses on one separator: `got_raw` = unstripped parts (or None), `got_stripped` = what the call
+    site returns (or None)"""
+    if got_raw is not None and not _is_err(got_raw):
+        want = _ref_split(s, sepname)
+        if got_raw != want and not (s == '' and got_raw == ['']):
+            if _balanced(s) and any(not _balanced(p) for p in got_raw):
+                bad('split_braces', 'splitting balanced %r at %s gives %r: a part is cut inside braces' % (s, sepname, got_raw))
+            else:
+                bad('split_drops_seps', 'splitting %r at %s gives %r, cutting at the brace-level-0 separators gives %r' % (s, sepname, got_raw, want))
+    if got_stripped is not None and not _is_err(got_stripped):
+        want = _ref_stripped(s, sepname)
+        if got_stripped != want and not (s == '' and got_stripped == ['']):
+            if _balanced(s) and any(not _balanced(p) for p in got_stripped):
+                bad('split_braces', '%s(%r) = %r: a part is cut inside braces' % (name, s, got_stripped))
+            else:
+                bad('split_drops_seps', '%s(%r) = %r, cutting at the brace-level-0 separators (parts stripped) gives %r' % (name, s, got_stripped, want))
+
+
+def _check_case(bad, s, label, cc, again, toks, balanced, scan):
+    """the case-change clauses on one result `cc` (`again` = the same conversion applied to cc)"""
+    unclosed = _ends_in_unclosed_special(s)
+    multi = _length_changing(s)
+    if len(cc) != len(s):
+        tag = ''
+        if unclosed:
+            tag = ' [unclosed special character]'
+        elif multi and 0 < len(cc) - len(s) <= sum(max(len(c.upper()), len(c.lower())) - 1 for c in multi):
+            tag = ' [length-changing letter]'
+        bad('case_len', '%s = %r changes the length%s' % (label, cc, tag))
+    if _fold(cc) != _fold(s) and not (unclosed and _fold(cc) == _fold(s) + '}'):
+        bad('case_letters', '%s = %r' % (label, cc))
+    if again != cc:
+        bad('case_idem', '%s = %r, again = %r%s' % (label, cc, again, ' [unclosed special character]' if unclosed else ''))
+    if balanced and not _is_err(toks):
+        t2 = _call(lambda: [[t, l] for t, l in scan(cc)])
+        if not _is_err(t2) and len(t2) == len(toks):
+            for (a, la), (b, lb) in zip(toks, t2):
+                if la >= 1 and not (la == 1 and a.startswith('\\')) and a != b:
+                    bad('case_braces', '%s = %r alters %r inside braces' % (label, cc, a))
+                    break
+                if la == 1 and a.startswith('\\'):
+                    wa, wb = a.split(' '), b.split(' ')
+                    if len(wa) != len(wb) or any(x.startswith('\\') and x != y for x, y in zip(wa, wb)):
+                        bad('case_braces', '%s = %r alters a command of a special character' % (label, cc))
+                        break
 
 
 def oracle(case, io, reply):
@@ -151,13 +337,17 @@ def oracle(case, io, reply):
     def bad(clause, msg):
         fails.append('%s: %s' % (clause, msg))
 
-    for k, v in io.items():
-        vals = v.values() if isinstance(v, dict) and 'error' not in v else (v if isinstance(v, list) and k in ('prefix', 'substring') else [v])
-        for x in vals:
-            if _is_err(x) and x['error'].startswith('INTERNAL'):
-                bad('no_internal', '%s raised %s on %r' % (k, x['error'], s))
+    _walk_errors(io, '', bad, s)
+    if case['op'] == 'texsplit':
+        _check_split(bad, s, 'split_name_list', 'and', io['raw_and'], io['and'])
+        _check_split(bad, s, 'split_tex_string', 'space', io['raw_space'], io['space'])
+        if not _is_err(io['and']) and io['num.names$'] != len(io['and']):
+            bad('through_builtins', 'num.names$(%r) = %r, split_name_list gives %d names' % (s, io['num.names$'], len(io['and'])))
+        return fails
+
     balanced = _balanced(s)
     toks = io['scan']
+    b = io['b']
     if not _is_err(toks):
         joined = ''.join(t for t, _ in toks)
         if balanced and joined != s:
@@ -170,104 +360,116 @@ def oracle(case, io, reply):
             for t, l in toks:
                 if t == '{':
                     d += 1
-                    ok = ok and l == d
                 elif t == '}':
                     d -= 1
-                    ok = ok and l == d
-                elif l == 1 and t.startswith('\\') and len(t) > 1 and d == 1 and False:
-                    pass
-                else:
-                    ok = ok and l == d
+                ok = ok and l == d
                 if d < 0 or l < 0:
                     ok = False
             if not ok or d != 0:
                 bad('scan_levels', 'levels of balanced %r are %r' % (s, toks))
-        n = io['len']
-        if not _is_err(n):
-            if '{' not in s and '}' not in s and n != len(s):
-                bad('len_counts', 'brace-free %r has text length %r' % (s, n))
-            if n != sum(1 for t, _ in toks if t not in ('{', '}')):
-                bad('len_counts', 'text length of %r is %r but it has %d non-brace tokens' % (s, n, sum(1 for t, _ in toks if t not in ('{', '}'))))
+        for name, n in (('bibtex_len', io['len']), ('text.length$', b['text.length$'])):
+            if not _is_err(n):
+                if '{' not in s and '}' not in s and n != len(s):
+                    bad('len_counts', '%s: brace-free %r has text length %r' % (name, s, n))
+                if n != sum(1 for t, _ in toks if t not in ('{', '}')):
+                    bad('len_counts', '%s: text length of %r is %r but it has %d non-brace tokens' % (name, s, n, sum(1 for t, _ in toks if t not in ('{', '}'))))
     n = io['len']
     if not _is_err(n):
-        for cnt, p in zip(case['ns'], io['prefix']):
-            if _is_err(p):
-                continue
-            if cnt <= 0:
-                if p != '':
-                    bad('prefix_len', 'text.prefix$(%r, %d) = %r, expected the empty string' % (s, cnt, p))
-                continue
-            pl = _call(utils.bibtex_len, p)
-            if pl != min(cnt, n):
-                bad('prefix_len', 'text.prefix$(%r, %d) = %r has text length %r, expected %d' % (s, cnt, p, pl, min(cnt, n)))
-            core = p.rstrip('}')
-            k = len(p) - len(core)
-            # p = q + '}'*j with q a prefix of s, for some j <= k
-            if not any(s.startswith(p[:len(p) - j]) for j in range(k + 1)):
-                bad('prefix_shape', 'text.prefix$(%r, %d) = %r is not a prefix of the string plus closing braces' % (s, cnt, p))
-            elif balanced and not _balanced(p):
-                bad('prefix_shape', 'text.prefix$(%r, %d) = %r does not close the braces it opened' % (s, cnt, p))
-    for (a, b), got, want in zip(case['subs'], io['substring'], spec.get('substring', [])):
-        if got != want:
-            bad('substring_spec', 'substring$(%r, %d, %d) = %r, BibTeX gives %r' % (s, a, b, got, want))
-    pu = io['purify']
-    if not _is_err(pu):
-        if any(not (c.isalnum() or c == ' ') for c in pu):
-            bad('purify_range', 'purify$(%r) = %r' % (s, pu))
-        again = _call(utils.bibtex_purify, pu)
-        if again != pu:
-            bad('purify_idem', 'purify$(%r) = %r but purifying again gives %r' % (s, pu, again))
+        for name, prefixes in (('bibtex_prefix', io['prefix']), ('text.prefix$', b['text.prefix$'])):
+            for cnt, p in zip(case['ns'], prefixes):
+                if _is_err(p):
+                    continue
+                if cnt <= 0:
+                    if p != '':
+                        bad('prefix_len', '%s(%r, %d) = %r, expected the empty string' % (name, s, cnt, p))
+                    continue
+                pl = _call(utils.bibtex_len, p)
+                if pl != min(cnt, n):
+                    bad('prefix_len', '%s(%r, %d) = %r has text length %r, expected %d' % (name, s, cnt, p, pl, min(cnt, n)))
+                core = p.rstrip('}')
+                k = len(p) - len(core)
+                # p = q + '}'*j with q a prefix of s, for some j <= k
+                if not any(s.startswith(p[:len(p) - j]) for j in range(k + 1)):
+                    bad('prefix_shape', '%s(%r, %d) = %r is not a prefix of the string plus closing braces' % (name, s, cnt, p))
+                elif balanced and not _balanced(p):
+                    bad('prefix_shape', '%s(%r, %d) = %r does not close the braces it opened' % (name, s, cnt, p))
+    for name, subs in (('bibtex_substring', io['substring']), ('substring$', b['substring$'])):
+        for (a, c), got, want in zip(case['subs'], subs, spec.get('substring', [])):
+            if got != want:
+                bad('substring_spec', '%s(%r, %d, %d) = %r, BibTeX gives %r' % (name, s, a, c, got, want))
+    for name, pu, again_f in (('bibtex_purify', io['purify'], utils.bibtex_purify),
+                              ('purify$', b['purify$'], lambda x: _builtin('purify$', x))):
+        if not _is_err(pu):
+            if any(not (c.isalnum() or c == ' ') for c in pu):
+                bad('purify_range', '%s(%r) = %r' % (name, s, pu))
+            again = _call(again_f, pu)
+            if again != pu:
+                bad('purify_idem', '%s(%r) = %r but purifying again gives %r' % (name, s, pu, again))
     for m in 'lut':
         cc = io['case'][m]
         if _is_err(cc):
             continue
-        known_tail = _ends_in_unclosed_special(s)
-        if len(cc) != len(s):
-            bad('case_len', 'change.case$(%r, %s) = %r changes the length%s' % (s, m, cc, ' [unclosed special character]' if known_tail else ''))
-        if cc.lower() != s.lower() and not (known_tail and cc.lower() == s.lower() + '}'):
-            bad('case_letters', 'change.case$(%r, %s) = %r' % (s, m, cc))
-        again = _call(utils.change_case, cc, m)
-        if again != cc:
-            bad('case_idem', 'change.case$(%r, %s) = %r, again = %r%s' % (s, m, cc, again, ' [unclosed special character]' if known_tail else ''))
-        if balanced and not _is_err(toks):
-            t2 = _call(lambda: [[t, l] for t, l in utils.scan_bibtex_string(cc)])
-            if not _is_err(t2) and len(t2) == len(toks):
-                for (a, la), (b, lb) in zip(toks, t2):
-                    if la >= 1 and not (la == 1 and a.startswith('\\')) and a != b:
-                        bad('case_braces', 'change.case$(%r, %s) = %r alters %r inside braces' % (s, m, cc, a))
-                        break
-                    if la == 1 and a.startswith('\\'):
-                        wa, wb = a.split(' '), b.split(' ')
-                        if len(wa) != len(wb) or any(x.startswith('\\') and x != y for x, y in zip(wa, wb)):
-                            bad('case_braces', 'change.case$(%r, %s) = %r alters a command of a special character' % (s, m, cc))
-                            break
-    if balanced:
-        for k in SEPS:
-            raw = io['raw'][k]
-            if _is_err(raw):
+        _check_case(bad, s, 'change_case(%r, %s)' % (s, m), cc, _call(utils.change_case, cc, m), toks, balanced, utils.scan_bibtex_string)
+    for mode, cc in zip(case.get('modes', []), b['change.case$']):
+        if mode[:1] in tuple('lutLUT'):
+            direct = io['case'][mode[0].lower()]
+            if _is_err(cc):
+                if not _is_err(direct):
+                    bad('case_mode', 'change.case$(%r, %r) raised %s although %r is a mode letter' % (s, mode, cc['error'], mode[0]))
                 continue
-            if any(not _balanced(p) for p in raw):
-                bad('split_braces', 'splitting balanced %r at %s gives %r' % (s, k, raw))
-            want = _level0_sep_removed(s, k)
-            if ''.join(raw) != want:
-                bad('split_drops_seps', 'splitting %r at %s gives %r: joined %r, expected %r' % (s, k, raw, ''.join(raw), want))
+            _check_case(bad, s, 'change.case$(%r, %r)' % (s, mode), cc, _call(_builtin, 'change.case$', cc, mode), toks, balanced,
+                        utils.scan_bibtex_string)
+    # splitting: the call sites (strip=True; split_name_list for ' and ') and the unstripped pieces
+    for k in SEPS:
+        _check_split(bad, s, 'split_name_list' if k == 'and' else 'split_tex_string[%s]' % k, k, io['raw'][k], io['split'][k])
+    if not _is_err(io['split']['and']) and b['num.names$'] != len(io['split']['and']):
+        bad('through_builtins', 'num.names$(%r) = %r, split_name_list gives %d names' % (s, b['num.names$'], len(io['split']['and'])))
+    # first letter / abbreviation (anchored mechanism)
+    fl = io['firstletter']
+    if not _is_err(fl) and not _is_err(toks):
+        want = _ref_first_letter(toks)
+        if fl != want:
+            bad('first_letter', 'bibtex_first_letter(%r) = %r, the first letter or special character is %r' % (s, fl, want))
+    for delim, ab in [(None, io['abbreviate'])] + list(zip(case.get('delims', []), io['abbrev_d'])):
+        if _is_err(ab):
+            continue
+        letters = []
+        ok = True
+        for piece in _ref_stripped(s, 'hyphen'):
+            t = _call(lambda: [[t, l] for t, l in utils.scan_bibtex_string(piece)])
+            if _is_err(t):
+                ok = False
+                break
+            letters.append(_ref_first_letter(t))
+        if ok:
+            want = ('.-' if delim is None else delim).join(x for x in letters if x)
+            if ab != want:
+                bad('abbreviate', 'bibtex_abbreviate(%r, %r) = %r, the first letters of the hyphen pieces give %r' % (s, delim, ab, want))
     return fails
 
 
 KNOWN_MATCHERS = {
     'C12-unclosed-special-char': lambda case, io, f: (f.startswith(('case_len:', 'case_idem:')) and f.endswith('[unclosed special character]')),
+    'C12-case-length-changing-letter': lambda case, io, f: (f.startswith('case_len:') and f.endswith('[length-changing letter]')
+                                                             and bool(_length_changing(case['s']))),
 }
 
 
 def buckets(case, io):
     s = case['s']
-    b = []
+    b = [case['op']]
     if '{' in s or '}' in s:
         b.append('braces:' + ('balanced' if _balanced(s) else 'unbalanced'))
     if '{\\' in s:
         b.append('special-char')
     if _is_err(io.get('scan')):
         b.append('too-deep')
+    if any(ord(c) > 127 and c.isalnum() for c in s):
+        b.append('non-ascii-alnum')
+    if not in_case_domain(s):
+        b.append('outside-case-domain')
+    if re.search(r'(?i)\sand\s', s):
+        b.append('and-separator-shape')
     b.append('len=%d' % min(len(s), 8))
     return b
 
@@ -281,26 +483,72 @@ def corpus():
     return corpus_for(ID)
 
 
-def _mk(s):
+def valid_case(case):
+    if not isinstance(case, dict) or not isinstance(case.get('s'), str) or case.get('op') not in ('texall', 'texsplit'):
+        return False
+    if case['op'] == 'texsplit':
+        return True
+    return (isinstance(case.get('ns'), list) and all(isinstance(n, int) for n in case['ns']) and
+            isinstance(case.get('subs'), list) and all(isinstance(p, list) and len(p) == 2 and all(isinstance(x, int) for x in p) for p in case['subs']) and
+            all(isinstance(m, str) for m in case.get('modes', [])) and all(isinstance(m, str) for m in case.get('delims', [])))
+
+
+def _mk(s, modes=MODES):
     n = len(s)
     rng_ = range(-(n + 2), n + 3)
-    return {'op': 'texall', 'fn': 'all', 's': s, 'ns': list(range(-1, n + 3)), 'subs': [[a, b] for a in rng_ for b in rng_]}
+    return {'op': 'texall', 'fn': 'all', 's': s, 'ns': list(range(-1, n + 3)), 'subs': [[a, b] for a in rng_ for b in rng_],
+            'modes': list(modes), 'delims': list(DELIMS)}
 
 
-SYMBOLS = ['–', '€', ' ', ' ', '　', '×', ' ']
+HUGE = [10 ** 20, -10 ** 20, 2 ** 63, -2 ** 63 - 1, 2 ** 64 + 1]
+
+
+def _mk_random(s, rng):
+    n = len(s)
+    big = rng.random() < 0.15     # arguments far beyond every bound (Python integers are unbounded; BibTeX's are not)
+    return {'op': 'texall', 'fn': 'all', 's': s,
+            'ns': sorted({-1, 0, 1, 2, n, n + 1, rng.randint(0, n + 1), rng.randint(0, n + 1)} | ({rng.choice(HUGE)} if big else set())),
+            'subs': [[rng.randint(-n - 3, n + 3), rng.randint(-2, n + 3)] for _ in range(12)] + [[1, n], [-1, n], [-2, n + 5], [2, -1], [-n - 2, 1]] +
+                    ([[rng.choice(HUGE), rng.randint(-2, n + 3)], [rng.randint(-n - 3, n + 3), rng.choice(HUGE)], [rng.choice(HUGE), rng.choice(HUGE)]] if big else []),
+            'modes': [rng.choice(MODE_POOL) for _ in range(3)], 'delims': [rng.choice(['', '.', '. ', '.~', '-'])]}
+
+
+SYMBOLS = ['–', '€', ' ', ' ', '　', '×', ' ']
 WS = [chr(c) for c in (9, 10, 11, 12, 13, 28, 29, 30, 31, 32, 133, 160, 5760, 8192, 8199, 8232, 8233, 8239, 8287, 12288)]
+# non-ASCII letters / digits inside the model's domain: cased pairs, letters whose other case is ASCII or a third letter
+# (ı ſ µ K ẞ), title case (ǅ), caseless letters, digits and numerics that isalnum() accepts, a combining mark (not alnum)
+UNI_IN = list('éÉöÖłŁдДẞ') + ['ı', 'ſ', 'µ', 'K', 'ǅ', 'ǆ', '中', 'ב', '٣', '²', '①', 'ⅷ', '́', 'ς', 'σ']
+# outside: upper- or lower-case form of another length, and the capital sigma
+UNI_OUT = ['ß', 'İ', 'ŉ', 'ǰ', 'ﬁ', 'ΐ', 'Σ', 'ﬃ', 'և']
+NAMES = ["\\'Emile Zola", "Jean--Pierre", "-A", "A-", "--", "Rodr\\'{\\i}guez", "{\\TeX}-x", "\\", "\\\\a", "{\\}x", "1-2-a", "a-{b-c}-d",
+         "Jean-{\\'E}mile", "{-}a", "\\LaTeX Project Team", "123 123 123 {}", "{Andrew} Blake", "d'-Aviano", "é-Édouard", "毛-泽东", "-ß"]
 
 
 def _random_string(rng):
     kind = rng.random()
-    if kind < 0.08:
+    if kind < 0.06:
         depth = rng.choice([50, 99, 100, 101, 120])
         inner = rng.choice(['x', '\\a b', ''])
         s = '{' * depth + inner + '}' * rng.choice([depth, depth - 1, 0])
         return rng.choice(['', 'a ']) + s
     n = rng.randint(5, 60)
-    pool = ALPHABET * 3 + list('abcXYZ019,.;!?\'"@#$%&_^') + WS[:6] + [' and ', ' AND ', '{\\', '{\\"o}', "{\\'e}", '\\ ', '\\~', '--', ': ', '{ }'] + SYMBOLS[:3]
+    pool = ALPHABET * 3 + list('abcXYZ019,.;!?\'"@#$%&_^') + list('andANDnd') + WS[:6] + [
+        ' and ', ' AND ', ' aNd ', '\tand\t', ' and', 'and ', '{\\', '{\\"o}', "{\\'e}", '\\ ', '\\~', '--', ': ', '{ }', ', '] + SYMBOLS[:3]
+    if kind < 0.30:
+        pool = pool + UNI_IN * 2 + (UNI_OUT if kind < 0.12 else [])
+        n = rng.randint(3, 30)
     return ''.join(rng.choice(pool) for _ in range(n))
+
+
+def _and_scope(maxlen):
+    """every string of length <= maxlen over AND_ALPHABET that contains 'and' in some letter case"""
+    out = []
+    for n in range(3, maxlen + 1):
+        for tup in itertools.product(AND_ALPHABET, repeat=n):
+            s = ''.join(tup)
+            if 'and' in s.lower():
+                out.append({'op': 'texsplit', 's': s})
+    return out
 
 
 def gen_cases(tier, rng, info):
@@ -309,19 +557,35 @@ def gen_cases(tier, rng, info):
     for n in range(0, maxlen + 1):
         for tup in itertools.product(ALPHABET, repeat=n):
             cases.append(_mk(''.join(tup)))
+    n_main = len(cases)
+    seen = {c['s'] for c in cases}
+    for n in range(1, 5):
+        for tup in itertools.product(COMMA_ALPHABET, repeat=n):
+            if ',' in tup and ''.join(tup) not in seen:
+                cases.append(_mk(''.join(tup)))
+    n_comma = len(cases) - n_main
+    and_cases = _and_scope(7)
+    cases.extend(and_cases)
     info['exhaustive'] = True
-    info['scope'] = 'all %d strings of length <= %d over %r, x all prefix counts and (start,length) windows in/beyond bounds' % (
-        len(cases), maxlen, ALPHABET)
+    info['scope'] = ('all %d strings of length <= %d over %r and all %d strings of length <= 4 over %r containing a comma, x all prefix '
+                     'counts and (start,length) windows in/beyond bounds, x the change.case$ modes %r; all %d strings of length <= 7 over '
+                     '%r containing "and" (any case) through split_name_list / num.names$ / the default splitter' % (
+                         n_main, maxlen, ALPHABET, n_comma, COMMA_ALPHABET, MODES, len(and_cases), AND_ALPHABET))
+    # names with a brace-level-0 backslash, empty hyphen pieces, special characters (first letter / abbreviation)
+    for s in NAMES:
+        cases.append(_mk(s, MODE_POOL[:9]))
+    # the letters whose case mapping changes the length (no model: the clauses on the implementation alone)
+    for c in UNI_OUT + UNI_IN:
+        for tmpl in ('%s', 'a%sB', '{\\x a%s}', '{%s}', ': %s', '%s-%s'):
+            cases.append(_mk(tmpl.replace('%s', c), ['U', 'title', 'l']))
     if tier == 'thorough':
-        for _ in range(150000):
+        for _ in range(50000):
             cases.append(_mk(''.join(rng.choice(ALPHABET) for _ in range(6))))
-    for _ in range(2500 if tier == 'quick' else 40000):
-        s = _random_string(rng)
-        n = len(s)
-        c = {'op': 'texall', 'fn': 'all', 's': s,
-             'ns': sorted({-1, 0, 1, 2, n, n + 1, rng.randint(0, n + 1), rng.randint(0, n + 1)}),
-             'subs': [[rng.randint(-n - 3, n + 3), rng.randint(-2, n + 3)] for _ in range(12)] + [[1, n], [-1, n], [-2, n + 5], [2, -1], [-n - 2, 1]]}
-        cases.append(c)
+        for _ in range(50000):
+            n = rng.randint(8, 14)
+            cases.append({'op': 'texsplit', 's': ''.join(rng.choice(AND_ALPHABET + ['and', 'And', ' and ', 'N', 'D']) for _ in range(n))})
+    for _ in range(5000 if tier == 'quick' else 40000):
+        cases.append(_mk_random(_random_string(rng), rng))
     return cases
 
 
@@ -352,23 +616,55 @@ THEOREMS = {
     'C12_split_braces': 'top-level splitting never splits inside braces: on balanced input every part is balanced',
     'C12_split_drops_seps': 'top-level splitting drops only separators: the balanced input is the parts in order with exactly one separator match between consecutive parts',
     'C12_split_fuel': 'the fuel (length + 1) of the two loops of the splitting model is never exhausted',
+    # round 2: the primitives over the character tables of the running interpreter
+    'C12_generic_at_ascii': 'the character-class generic primitives (what the check drives) are, at the ASCII operations, the primitives the theorems above are about',
+    'C12_purify_range_unicode': 'purify yields only alphanumerics (str.isalnum of the running interpreter, regenerated table) and blanks',
+    'C12_purify_idem_unicode': 'purify is idempotent (Unicode alphanumerics)',
+    'C12_case_fold_canonical': '"equal up to case" has a canonical form lower(upper(c)) that absorbs both case mappings and leaves the structural characters alone (lower alone is not canonical: ı -> I -> i)',
+    'C12_case_letters_unicode': 'case change (Unicode single-character mapping) keeps every letter up to case and every other character, when every special character is closed',
+    'C12_case_len_unicode': 'case change preserves the length when every special character is closed (about the code on caseDomain: no letter whose case mapping changes the length, no capital sigma)',
+    'C12_case_idem_unicode': 'case change is idempotent when every special character is closed (Unicode mapping)',
+    'C12_case_braces_unicode': 'inside braces case change changes nothing except the non-command words of a special character (Unicode mapping)',
+    'C12_case_domain': 'the decidable domain of the case-changing model excludes ß İ ŉ ǰ ﬁ (102 + 1 letters whose case mapping changes the length) and the capital sigma (known finding C12-case-length-changing-letter)',
+    'C12_change_case_mode': 'every mode letter: change.case$ looks at the first character of the mode string only, l/L u/U t/T (no other character of Unicode lower-cases to one of them); empty and other modes are BibTeX errors',
+    'C12_split_strip': 'what the call sites get = the unstripped pieces with the white space at their two ends removed (nothing else), empty ones dropped for the default separator only; split_name_list strips and keeps empties',
+    'C12_split_stripped_balanced': 'on balanced input the stripped parts (call sites) are balanced: never split inside braces',
+    'C12_split_top': 'EVERY string, balanced or not (after the repair C12-1): the parts in order with one separator match between consecutive parts give back the input, and every dropped separator lies at brace level 0 (an unmatched "}" is an ordinary character, an unclosed group extends to the end and is never split)',
+    'C12_split_maximal': 'maximality, every string: no part contains a brace-level-0 match of the separator (a white-space character, or a tie not after a backslash, for the default one): the string is cut at EVERY top-level separator',
+    'C12_split_characterised': 'the two halves together (closes the SplitsTo.one loophole): the pieces are a decomposition of the input into parts WITHOUT a top-level separator match, separated by top-level separator matches',
+    'C12_split_maximal_stripped': 'maximality for the stripped parts the call sites get',
+    'C12_first_letter_spec': '[anchored mechanism] bibtex_first_letter = the first token in scan order that is a special character with a command (answered in braces) or a letter; a brace-level-0 backslash is skipped',
+    'C12_first_letter_plain': '[anchored mechanism] without braces and backslashes the first letter is the first letter',
+    'C12_abbreviate_spec': '[anchored mechanism] bibtex_abbreviate joins the first letters of the top-level hyphen pieces, pieces without a letter skipped, order kept',
+    'C12_width_plain': '[anchored mechanism] width of a brace-free string = sum of the character widths',
+    'C12_width_special': '[anchored mechanism] a closed special character: its two braces + the characters after the first one of its command (inner braces not counted) - 1000',
 }
 
-LEVEL_TEXT = ('Machine-checked proofs (Lean 4) about the executable model of pybtex/bibtex/utils.py, for ALL strings and ALL integer '
-              'arguments: substring = BibTeX substring$ for every (start, length); the scanner is lossless exactly up to the "}" it '
-              'appends after an unclosed special character, its levels are the running brace depth, and it fails exactly beyond 100 '
-              'nested braces; text length = an independent reference count (braces never, a special character once); the text prefix '
-              'has text length min(n, length), is empty for n <= 0, and is a prefix plus exactly the closing braces it left open; '
-              'purify yields only alphanumerics and spaces and is idempotent; case change preserves length and letters up to case, '
-              'is idempotent (all three under "every special character is closed", with machine-checked counterexamples without it) '
-              'and inside braces touches only the non-command words of a special character; top-level splitting of balanced input '
-              'yields balanced parts and drops only separator matches. The model is tied to the code by the differential check '
-              '(exhaustive over all strings of length <= 4 over a 10-character alphabet x all counts/windows, sampled beyond).')
-LEVEL_NOTE = ('Trusted: Lean kernel; axioms propext/Classical.choice/Quot.sound only; the hand-written model (Model/TeXString.lean) and '
-              'reference notions (Spec/TeXString.lean: substring, depthAfter, balanced, maxDepth, endsInSpecial, depthSat, textLength, '
-              'SplitsTo and the separator predicates) correspond to the code only as far as the differential check explores; letters, '
-              'digits and case mapping are ASCII in the model; re.split on the four separator shapes is modelled by hand matchers. '
-              'The three case-change laws are false of the code on strings with an unclosed special character (known finding '
-              'C12-unclosed-special-char; C12_case_len_neg, C12_case_letters_neg, C12_case_idem_neg are the proved witnesses); the split '
-              'theorems assume balanced input and do not claim that every top-level separator is split at; bibtex_width, '
-              'bibtex_first_letter and bibtex_abbreviate are covered by the correspondence check only.')
+LEVEL_TEXT = ('Machine-checked proofs (Lean 4) about the executable model of pybtex/bibtex/utils.py (+ the mode handling of change.case$), '
+              'for ALL strings and ALL integer arguments: substring = BibTeX substring$ for every (start, length); the scanner is lossless '
+              'exactly up to the "}" it appends after an unclosed special character, its levels are the running brace depth, and it fails '
+              'exactly beyond 100 nested braces; text length = an independent reference count; the text prefix has text length '
+              'min(n, length), is empty for n <= 0, and is a prefix plus exactly the closing braces it left open; purify yields only '
+              'alphanumerics and blanks and is idempotent; case change preserves length and letters up to case, is idempotent (all three '
+              'under "every special character is closed", with machine-checked counterexamples without it) and inside braces touches only '
+              'the non-command words of a special character -- purify and case change both over ASCII and over the character tables of '
+              'the running interpreter (str.isalnum, single-character str.lower/str.upper, regenerated on every run; "up to case" = the '
+              'canonical form lower(upper(c)), proved canonical from kernel-evaluated table checks); change.case$ accepts exactly the '
+              'mode letters l/L u/U t/T as first character; top-level splitting of EVERY string (balanced or not) gives back the input '
+              'with one separator match between consecutive parts, every dropped separator at brace level 0, and NO top-level separator '
+              'match left inside a part (maximality), for the unstripped pieces and for the stripped parts the call sites get; '
+              'bibtex_first_letter / bibtex_abbreviate / bibtex_width are characterised. The model is tied to the code by the differential '
+              'check (exhaustive over all strings of length <= 4 over a 10-character alphabet (+ a comma alphabet) x all counts/windows x a mode family, all '
+              'strings <= 7 over the "and" alphabet containing "and", sampled beyond; utils functions and the real built-ins).')
+LEVEL_NOTE = ('Trusted: Lean kernel; axioms propext/Classical.choice/Quot.sound only; the hand-written models (Model/TeXString.lean, '
+              'Model/TeXStringU.lean) and reference notions (Spec/TeXString.lean: substring, depthAfter, balanced, maxDepth, endsInSpecial, '
+              'depthSat, textLength, SplitsTo/SplitsTop, HasTopSep and the separator predicates, firstLetterOf) correspond to the code only '
+              'as far as the differential check explores; re.split on the four separator shapes is modelled by hand matchers; the '
+              'character tables are those of the interpreter the check runs on. The three case-change laws are false of the code on '
+              'strings with an unclosed special character (known finding C12-unclosed-special-char; C12_case_len_neg, '
+              'C12_case_letters_neg, C12_case_idem_neg are the proved witnesses). Length preservation is false of the code on strings with a '
+              'letter whose case mapping is not one character (known finding C12-case-length-changing-letter); such strings and the '
+              'capital sigma are outside the case-changing model (caseDomain), the clauses are evaluated on the implementation alone '
+              'there. The splitting theorems for unbalanced input describe the code AFTER the repair proposed_fixes/C12-1 '
+              '(_find_closing_brace: an unclosed group extends to the end of the string). The first-letter / abbreviation / width theorems '
+              'and oracle clauses are about the anchored mechanism; the statement of the property has no clause for them.')
